@@ -10,6 +10,7 @@ PID = "C36"
 LEAN_MODULES = ["Pkgcore.Props.C36"]
 OBLIGATIONS = [
     "Pkgcore.C36.fetch_returns_only_verified",
+    "Pkgcore.C36.fetch_returned_file_acceptable",
     "Pkgcore.C36.fetch_returns_if_any_attempt_correct",
     "Pkgcore.C36.fetch_returns_iff",
     "Pkgcore.C36.fetch_returns_iff_exists",
@@ -42,13 +43,16 @@ RULE = ("a case = (target checksums: size and/or 0-3 hashes, consistent or delib
         "+ abstract executed outcomes")
 LEVEL_TEXT = ("Kernel-checked Lean 4 theorems about a model of fetcher.fetch/_verify as a state machine over file states, for every target, attempt "
               "budget, initial file and outcome sequence of any length: a path is returned only for a file with the stated size and checksums "
-              "(fetch_returns_only_verified); it is returned whenever the initial file or an executed attempt — including the last allowed one — "
+              "(fetch_returns_only_verified) that is non-empty unless a size of 0 is stated and is the initial file or the acceptable result of the last "
+              "executed run (fetch_returned_file_acceptable); it is returned whenever the initial file or an executed attempt — including the last allowed one — "
               "leaves such a file (fetch_returns_if_any_attempt_correct, exact characterisation fetch_returns_iff); failures other than ChksumFailure "
               "use all attempts or all URIs (fetch_uses_every_attempt); partial files go untouched to the resume command and survive a failed fetch "
               "(partial_kept_for_resume, partial_survives_failed_fetch); a wrong-checksum file always ends in ChksumFailure "
               "(wrong_checksum_never_reported). The model is tied to the code by running the real fetch() on real files with generated outcome "
               "sequences (stubbed spawn_bash and a real bash fetch script), comparing result, final file and per-run command/URI/handed file, and "
-              "by evaluating the property clauses directly on the real code with a hashlib oracle.")
+              "by evaluating the property clauses directly on the real code with a hashlib oracle, including a fresh re-read of the reported "
+              "file through get_path() of a new fetcher object; every model/implementation disagreement is followed by an evaluation of the "
+              "property on the real code for the neighbouring inputs (shrinks, flipped exit statuses, one more successful attempt).")
 LEVEL_NOTE = ("Trusted: Lean kernel; standard axioms only; the abstraction of files to (size, checksums match); the behaviour of the external "
               "fetch command is universally quantified in the theorems and sampled in the correspondence.")
 
@@ -277,7 +281,16 @@ def run_real(case, scratch, real_bash):
                 except errors.FetchError as e:
                     got, result = None, classify(e, errors)
         final = read_file(path)
-        return {"result": result, "final": final, "steps": steps, "path_ok": got is None or got == path}
+        # follow-up on the real code: what a *fresh* fetcher object says about the file now at the path
+        # (get_path = _verify of distdir/filename, the call every later consumer of the distfile makes)
+        try:
+            again = custom.fetcher(distdir=distdir, command="true ${URI} ${DISTDIR}/${FILE}", userpriv=False, attempts=1)
+            reread = "returned" if again.get_path(target) == path else "nopath"
+        except errors.FetchError as e:
+            reread = classify(e, errors)
+        except Exception as e:
+            reread = "other:" + type(e).__name__
+        return {"result": result, "final": final, "steps": steps, "path_ok": got is None or got == path, "reread": reread}
     finally:
         shutil.rmtree(d, ignore_errors=True)
 
@@ -346,6 +359,11 @@ def corpus(rng):
         C({}, 3, None, [(data, False), (data, False), (data, True)]),
         C({}, 3, None, [(b"", True), (data, True)]),
         C(mk_target(data, None, ["sha256"]), 3, b"", [(b"", True), (data, False)]),
+        # zero-byte files where no size is stated: written with exit 0, as the only/first/last outcome, already there
+        C({}, 1, None, [(b"", True)]),
+        C({}, 2, b"", [(b"", True), (data, True)]),
+        C({}, 3, None, [(None, True), (b"", True), (b"", True)]),
+        C(mk_target(data, None, ["sha256"]), 2, None, [(b"", True), (data, True)]),
         C(mk_target(data, None, ["sha256"]), 3, None, [(half, True), (data, True)]),
         # resume chain, URIs exhausted before the attempts
         C(full, 4, None, [(data[:3], False), (data[:9], False)]),
@@ -415,7 +433,9 @@ def run(ctx):
                 "expected_data": fmt(case["data"]), "attempts": case["attempts"], "file0": fmt(case["file0"]),
                 "outs": [[fmt(c), 0 if e else 1] for c, e in case["outs"]]}
 
-    def run_one(case, real_bash=False):
+    def run_one(case, real_bash=False, around=None):
+        """run one case on the real code and evaluate the property clauses; `around` = description of the
+        model/implementation mismatch this case is a neighbour of (then it is not sent to the model again)"""
         chk = case["chksums"]
         try:
             real = run_real(case, scratch, real_bash)
@@ -424,6 +444,9 @@ def run(ctx):
             return None
         d = describe(case)
         d["via"] = "bash" if real_bash else "stub"
+        if around is not None:
+            d["explored_around_mismatch"] = around
+            ctx.count("explored_neighbour")
         nsteps = len(real["steps"])
         executed = case["outs"][:nsteps]
         key = repr((sorted((k, v if k == "size" else "h") for k, v in chk.items()), case["tname"], case["attempts"],
@@ -451,6 +474,31 @@ def run(ctx):
             ctx.violation(d, "fetch raised an unexpected error class " + real["result"])
         if real["result"] == "returned" and not verified(real["final"], chk):
             ctx.violation(d, "fetch returned a path whose file does not have the stated size/checksums: " + str(fmt(real["final"])))
+        if real["result"] == "returned":
+            final = real["final"]
+            # "such a file" for targets that state no size: there must be something in it (base._verify: "file is empty")
+            if final is not None and "size" not in chk and len(final) == 0:
+                ctx.violation(d, "fetch returned a path to an empty (zero-byte) file although the target states no size of 0")
+            # fresh re-read: the file fetch() just reported must pass the verification of a new fetcher object
+            if real["reread"] != "returned":
+                ctx.violation(d, f"fetch returned the path, but get_path() of a fresh fetcher on the same distdir gives {real['reread']}")
+            # provenance: the reported file is the initial one (no run) or what the *last* executed run left, and that
+            # outcome is acceptable -- the loop may stop before its budget is used only on such a file
+            budget = min(case["attempts"], len(case["outs"]))
+            if nsteps == 0:
+                if final != case["file0"]:
+                    ctx.violation(d, "no fetch command ran, yet the file at the returned path is not the initial file")
+            else:
+                c, e = executed[-1]
+                if final != c:
+                    ctx.violation(d, f"the file at the returned path is not what the last executed run (run {nsteps - 1}) left")
+                elif not acceptable(c, e, chk):
+                    later = [k for k in range(nsteps, budget) if acceptable(case["outs"][k][0], case["outs"][k][1], chk)]
+                    ctx.violation(d, f"fetch returned after {nsteps} of {budget} allowed runs, reporting the result of run {nsteps - 1} "
+                                     f"(content {fmt(c)}, exit {'0' if e else '!=0'}), which is not an acceptable download"
+                                     + (f"; unused run(s) {later} would have left a correct file" if later else ""))
+        elif real["reread"] == "returned":
+            ctx.violation(d, f"fetch raised {real['result']} although the file it left at the path passes get_path() of a fresh fetcher")
         seen_ok = acceptable(case["file0"], True, chk) if case["file0"] is not None else False
         last_ok = any(acceptable(c, e, chk) for c, e in executed)
         if (seen_ok or last_ok) and real["result"] != "returned":
@@ -478,8 +526,56 @@ def run(ctx):
         if any(wrong(c, chk) for c, _ in executed) or wrong(case["file0"], chk):
             if real["result"] != "chksum":
                 ctx.violation(d, f"a wrong-checksum file was met but fetch ended with {real['result']} instead of ChksumFailure")
-        pending.append((case, d, real))
+        if around is None:
+            pending.append((case, d, real))
         return real
+
+    def neighbours(case):
+        """nearby inputs of a case on which model and code disagree: shrinks (prefixes, single outcomes, dropped
+        outcomes, no initial file, smaller budgets), flipped exit statuses, and the follow-up that makes an early
+        or wrong stop observable (one more URI/attempt that delivers the correct file)"""
+        outs, n, data = case["outs"], case["attempts"], case["data"]
+        mk = lambda **kw: dict({k: v for k, v in case.items() if k != "exh"}, **kw)
+        out = [mk()]
+        for k in range(len(outs) + 1):
+            for a in sorted({k, n, min(n, k + 1)}):
+                out.append(mk(outs=outs[:k], attempts=a))
+                out.append(mk(outs=outs[:k], attempts=a, file0=None))
+        for k, o in enumerate(outs):
+            out.append(mk(outs=[o], attempts=1, file0=None))
+            out.append(mk(outs=[o, (data, True)], attempts=2, file0=None))
+            out.append(mk(outs=outs[:k] + outs[k + 1:]))
+            out.append(mk(outs=outs[:k] + [(o[0], not o[1])] + outs[k + 1:]))
+            out.append(mk(outs=outs[:k + 1] + [(data, True)], attempts=max(n, k + 2)))
+        out.append(mk(outs=outs + [(data, True)], attempts=n + 1))
+        if case["file0"] is not None:
+            out.append(mk(outs=[], attempts=0))
+            out.append(mk(outs=[(case["file0"], True)], attempts=1, file0=None))
+        seen, res = set(), []
+        for c in out:
+            key = (c["attempts"], c["file0"], tuple(c["outs"]))
+            if key not in seen:
+                seen.add(key)
+                res.append(c)
+        return res
+
+    explored = set()
+
+    def explore(case, d, why):
+        """a model/implementation disagreement (or a broken proof obligation) is not yet a failing input: evaluate the
+        property itself on the real code for the case and its neighbours, through the stub and through real bash"""
+        key = (case["tname"], case["attempts"], case["file0"], tuple(case["outs"]))
+        if key in explored or len(explored) >= ctx.n(12, 60):
+            return
+        explored.add(key)
+        around = {k: d[k] for k in ("target", "attempts", "file0", "outs")}
+        around["mismatch"] = why[:300]
+        nb = neighbours(case)[: ctx.n(60, 400)]
+        for i, c in enumerate(nb):
+            run_one(c, around=around)
+            if i < 3:
+                run_one(c, real_bash=True, around=around)
+        ctx.count("explored_mismatch")
 
     try:
         cases = corpus(rng)
@@ -495,10 +591,14 @@ def run(ctx):
             run_one(gen_case(rng), real_bash=True)
         if not ctx.quick():
             exhaustive(ctx, rng, run_one)
+        compare_with_model(ctx, pending, explore)
     finally:
         scratch.close()
 
-    # ---- edge A: the Lean model on the same inputs
+
+def compare_with_model(ctx, pending, explore):
+    """edge A: the Lean model on the same inputs; every disagreement is handed to `explore`, which evaluates the
+    property on the real code around that input (a mismatch alone names no failing input)"""
     reqs = []
     for case, d, real in pending:
         chk, data = case["chksums"], case["data"]
@@ -510,6 +610,7 @@ def run(ctx):
         chk, data = case["chksums"], case["data"]
         if not isinstance(rep, dict):
             ctx.mismatch(d, f"driver answered {rep!r}")
+            explore(case, d, f"driver answered {rep!r}")
             continue
         mine = {"result": real["result"], "final": abstract(real["final"], chk, data),
                 "steps": [[m, abstract(h, chk, data)] for m, _, h in real["steps"]]}
@@ -521,5 +622,7 @@ def run(ctx):
             model = {"result": model["result"], "final": strip(model["final"]), "steps": [[m, strip(h)] for m, h in model["steps"]]}
         if mine != model:
             ctx.mismatch(d, f"real fetch: {mine}; Lean model: {model}")
+            explore(case, d, f"real fetch: {mine}; Lean model: {model}")
         if (real["result"] == "returned") != rep["spec"]:
             ctx.mismatch(d, f"real fetch result {real['result']} but the reference semantics says returns={rep['spec']}")
+            explore(case, d, f"real fetch result {real['result']}, reference semantics returns={rep['spec']}")
